@@ -7,6 +7,7 @@ type vLoad struct {
 	size    int
 	outcome uint8 // 0 ok, 1 error, 2 panic
 	called  bool
+	during  func() // what happens while the loader runs (the cleaner's goroutine rotating generations)
 }
 
 type vErr struct{}
@@ -28,6 +29,7 @@ func vGet(c *Cache[uint32], key uint32, withErr bool, ld *vLoad) (v uint32, err 
 	if withErr {
 		v, err = c.GetWithError(key, func() (uint32, int, error) {
 			ld.called = true
+			ld.during()
 			if ld.outcome == 2 {
 				panic(vPanic{})
 			}
@@ -40,6 +42,7 @@ func vGet(c *Cache[uint32], key uint32, withErr bool, ld *vLoad) (v uint32, err 
 	}
 	v = c.Get(key, func() (uint32, int) {
 		ld.called = true
+		ld.during()
 		if ld.outcome == 2 {
 			panic(vPanic{})
 		}
@@ -81,6 +84,10 @@ func VerifCacheHistory() {
 				rt.Assume(false) // a released cache is not used any more (its payload map is nil)
 			}
 			ld := &vLoad{val: rt.NondetU32(), size: int(rt.NondetU16()), outcome: rt.NondetU8()}
+			ld.during = func() {}
+			if rt.Param("ROTATE_IN_LOAD") == 1 && rt.Choose(2) == 1 {
+				ld.during = func() { cl.Rotate(); rt.Reach("rotate-in-load") } // a load is slow: the cleaner's timer fires meanwhile
+			}
 			if withErr {
 				rt.Assume(ld.outcome <= 2)
 			} else {
